@@ -92,6 +92,10 @@ pub struct TraitDef {
     pub non_enumerable: bool,
     /// associated type names (no generics), each with bounds `Assoc: Trait` (trait idx list)
     pub assocs: Vec<(String, Vec<usize>)>,
+    /// where-clauses on associated types: (assoc idx, trait idx) printed as `type Assoc where Self: Trait;`
+    /// (only C23 populates this: the differential oracle needs no reference semantics for it)
+    #[serde(default)]
+    pub assoc_wcs: Vec<(usize, usize)>,
 }
 
 #[derive(Clone, Debug, Serialize, Deserialize)]
@@ -389,7 +393,13 @@ pub fn print_trait(p: &Program, t: &TraitDef) -> String {
     let assocs = t
         .assocs
         .iter()
-        .map(|(n, bs)| if bs.is_empty() { format!("type {}; ", n) } else { format!("type {}: {}; ", n, bs.iter().map(|b| p.traits[*b].name.clone()).collect::<Vec<_>>().join(" + ")) })
+        .enumerate()
+        .map(|(k, (n, bs))| {
+            let b = if bs.is_empty() { String::new() } else { format!(": {}", bs.iter().map(|b| p.traits[*b].name.clone()).collect::<Vec<_>>().join(" + ")) };
+            let ws: Vec<String> = t.assoc_wcs.iter().filter(|(a, _)| *a == k).map(|(_, tr)| format!("Self: {}", p.traits[*tr].name)).collect();
+            let w = if ws.is_empty() { String::new() } else { format!(" where {}", ws.join(", ")) };
+            format!("type {}{}{}; ", n, b, w)
+        })
         .collect::<String>();
     format!("{}trait {}{}{} {{ {}}}", attr, t.name, params(t.extra, 1), wc, assocs)
 }
